@@ -17,7 +17,7 @@ CONFIG = worlda.base_config(
     "the corpus generator, not covered.",
 )
 NAMES = ["cr\rname", "lf\nname", "crlf\r\nA1 OK fake", 'q"uote', "back\\slash", "sp ace", "per%cent", "st*ar", "br{ace", "pa(ren", "am&p", "tab\tname", "uni-\xe9", "dq\"\"", "end\\", "a/b\"c"]
-KWS = ["kw1", "$Fwd", "k[w", "k'w", "k=w;", "k#w", "k~w"]
+KWS = ["kw1", "$Fwd", "k[w", "k'w", "k=w;", "k#w", "k~w", "a]b"]  # "a]b": not an atom for the reader of a flag list, must not come back as a flag
 ITEMS = [
     "ENVELOPE", "BODYSTRUCTURE", "BODY", "(ENVELOPE BODYSTRUCTURE UID FLAGS INTERNALDATE RFC822.SIZE)", "BODY[HEADER]", "BODY[1]", "BODY[1.MIME]",
     "BODY[TEXT]<0.10>", "BODY.PEEK[HEADER.FIELDS (Subject From \"X-Tok\")]", "BODY[HEADER.FIELDS.NOT (Subject)]", "RFC822.HEADER", "BODY[2.1]", "BODY[1.1.1]",
@@ -97,7 +97,7 @@ def generate(seed, tier, index, kf):
                 ops.append({"s": s, "op": "raw_in_idle", "line": r.choice(IDLE_NOISE)})
             ops.append({"s": s, "op": "done"})
         elif x < 0.96:
-            ops.append({"s": s, "op": "raw", "line": r.choice(("UID COPY 99999 inbox", "UID MOVE 99999 work", "UID COPY 99998:99999 \"work\"", "FETCH 1 (BODY[", "XYZZY \"a\\\"b\"", "LIST \"\" \"a\\\"*\"", 'STATUS "q\\"uote" (MESSAGES)', "SEARCH HEADER \"X\\\"Y\" \"\"", "LOGIN \"a\\\\b\" x", "ID (\"k\" \"v\\\"w\")")), "mutates": False})
+            ops.append({"s": s, "op": "raw", "line": r.choice(("UID COPY 99999 inbox", "UID MOVE 99999 work", "UID COPY 99998:99999 \"work\"", "FETCH 1 (BODY[", "XYZZY \"a\\\"b\"", "LIST \"\" \"a\\\"*\"", 'STATUS "q\\"uote" (MESSAGES)', "SEARCH HEADER \"X\\\"Y\" \"\"", "LOGIN \"a\\\\b\" x", "ID (\"k\" \"v\\\"w\")", "SEARCH SUBJECT nomatchatall", "UID SEARCH HEADER X-Nope zz", "FETCH 1 ()", "UID FETCH 1:* ()", "SEARCH UID 99999")), "mutates": False})
         else:
             ops.append({"actor": "agent", "op": "deliver", "mbox": r.choice(["inbox", "work"]), "count": 1, "unseen": True, "shape": r.choice(corpus.SHAPES)})
     mode = "concurrent" if r.random() < 0.5 else "sequential"
